@@ -78,6 +78,35 @@ mutant('C05', 'notify-before-store', 'frappy/modulebase.py',
 mutant('C05', 'write-wrapper-skips-announce-on-none', 'frappy/modulebase.py',
        "                                new_value = value if new_value is None else validate(new_value)",
        "                                if new_value is None:\n                                    return value\n                                new_value = validate(new_value)")
+# ---------------------------------------------------------------- C07
+mutant('C07', 'split-on-cr', 'frappy/protocol/interface/__init__.py',
+       "EOL = b'\\n'", "EOL = b'\\r'")
+mutant('C07', 'no-padding-in-decode', 'frappy/protocol/interface/__init__.py',
+       "res = msg.strip().decode('utf-8').split(' ', 2) + ['', '']",
+       "res = msg.strip().decode('utf-8').split(' ', 2) + ['']")
+mutant('C07', 'buffer-not-carried-over', 'frappy/protocol/interface/tcp.py',
+       "        self.data += newdata", "        self.data = newdata")
+mutant('C07', 'no-strip', 'frappy/protocol/interface/__init__.py',
+       "res = msg.strip().decode('utf-8')", "res = msg.decode('utf-8')")
+mutant('C07', 'decode-error-no-reply', 'frappy/protocol/interface/handler.py',
+       "                    print('--------------------')\n                    print(formatException())\n                    print('--------------------')\n                    print(formatExtendedTraceback(sys.exc_info()))\n                    print('====================')\n                else:",
+       "                    continue\n                else:")
+mutant('C07', 'reply-without-specifier', 'frappy/protocol/interface/handler.py',
+       "                    except SECoPError as err:\n                        result = (\n                            ERRORPREFIX + msg[0],\n                            msg[1],",
+       "                    except SECoPError as err:\n                        result = (\n                            ERRORPREFIX + msg[0],\n                            None,")
+mutant('C07', 'no-send-lock', 'frappy/protocol/interface/tcp.py',
+       "        with self.send_lock:\n            if self.running:", "        if True:\n            if self.running:")
+mutant('C07', 'stop-on-decode-error', 'frappy/protocol/interface/tcp.py',
+       "            raise DecodeError('exception in receive', raw_msg=message) from e",
+       "            self.running = False\n            raise DecodeError('exception in receive', raw_msg=message) from e")
+mutant('C07', 'secop-errors-only', 'frappy/protocol/interface/handler.py',
+       "                    except Exception as err:\n                        # create Error Obj instead",
+       "                    except KeyError as err:\n                        # create Error Obj instead")
+mutant('C07', 'deactivate-no-echo', 'frappy/protocol/dispatcher.py',
+       "        return (DISABLEEVENTSREPLY, specifier, None) if specifier else (DISABLEEVENTSREPLY, None, None)",
+       "        return (DISABLEEVENTSREPLY, None, None)")
+mutant('C07', 'help-two-replies', 'frappy/protocol/interface/handler.py',
+       "            self.send_reply(('_', f'{idx + 1}', line))", "            self.send_reply((HELPREPLY, f'{idx + 1}', line))")
 
 
 def run_mutant(prop, name, file, old, new, runs, extra):
